@@ -106,3 +106,6 @@ def check_C12(ctx, rep):
             ok = x is P(0) and w == oracle.dd_named(formula)
         rep.check(ok, "R29", "TwoFloat::" + meth, "angle-factor:" + meth, "%s is not self * dd(%s): %s" % (meth, formula, vg.show(t)[:200]), where=H.where(b),
                   detail={"factor": [hexs(w[0]), hexs(w[1])] if w else None, "shape": "self * K (Alg. 12, <= 5u^2 + 2^-107 < 6*2^-106)"})
+    # the trait routes to the two conversions are the conversions themselves (not each other)
+    from .rules_c10 import check_delegation_subset
+    check_delegation_subset(rep, f, {"to_degrees", "to_radians"}, rule="R29d")
